@@ -19,6 +19,25 @@ CHECKS = {
         "float64 / label-coded values only; bounds <= 4 dims, <= 4 items.",
         "DESIGN.md C01",
     ),
+    "C06": (
+        "exploration",
+        "Hypothesis-generated keys + exhaustive selector-kind enumeration against a label-dict reference model",
+        "Keys assigning a selector kind (none/single/subset Dimension/list) to every dimension position, in all key "
+        "syntaxes, are generated for arrays of up to 5 dims and compared entry by entry (reads) or by full target state "
+        "(writes) with a plain-loop model; selector-kind patterns are enumerated exhaustively up to 3 (thorough 4) dims "
+        "for equal- and mixed-length patterns; ill-formed keys must raise and leave the array untouched.",
+        "Trusts vlib/model.py; label-coded values make any misplacement visible; bounds <= 5 dims, <= 3 items.",
+        "DESIGN.md C06",
+    ),
+    "C07": (
+        "exploration",
+        "Hypothesis-generated reductions/casts/shares with symbolic, label-coded and float values against a label-dict model",
+        "sum_to / sum_over / cumsum / cast_to / get_shares_over are generated over all kept/summed/added dimension tuples and "
+        "orders and all ways of naming them and compared with explicit-loop marginal sums; symbolic values decide the linear "
+        "identities for all values per configuration; unknown dimensions and deficient cast targets must be rejected.",
+        "Trusts vlib/model.py and sympy; 0-d results only with float storage; bounds <= 4 dims, <= 4 items.",
+        "DESIGN.md C07",
+    ),
     "C14": (
         "exploration",
         "exhaustive pair enumeration + generated operation histories (Hypothesis) against an ordered-list model",
